@@ -165,6 +165,30 @@ def check_codecs(rep):
             if key in seen:
                 rep.fail(f"codec:{name}", case, f"to_{name} maps {seen[key]} and {k} to the same grouping {plain}")
             seen[key] = k
+            # the same grouping written down differently (blocks of equal size in any order, elements in any order, sizes ascending
+            # or descending) must encode to the same index; only the order of the two single qubits of '1122s' is documented as meaningful
+            import itertools
+            per_size = [list(itertools.permutations(grp)) for grp in plain]
+            done = False
+            for combo in itertools.product(*per_size):
+                if done:
+                    break
+                if name == "1122s" and [list(b) for b in combo[0]] != plain[0]:
+                    continue
+                for size_order in (list(range(len(combo))), list(range(len(combo)))[::-1]):
+                    blocks = [(list(reversed(b)) if (k % 2) else list(b)) for si in size_order for b in combo[si]]
+                    if not blocks:
+                        continue
+                    try:
+                        got = frm(li.Repr([list(b) for b in blocks]))
+                    except Exception as e:  # noqa: BLE001
+                        got = f"raised {type(e).__name__}"
+                    rep.evaluations += 1
+                    if got != k:
+                        rep.fail(f"codec:{name}:written-form", dict(case, written=blocks),
+                                 f"grouping {plain} of index {k} ({name}) written as {blocks} encodes to {got}", observed=got, expected=k)
+                        done = True
+                        break
             rep.case(("codec", name, k) if count > 1 else None, {"codec": name, "index": k, "grouping": plain} if k == count - 1 else None)
             rep.count("codec_indices", name)
     for n in range(2, 9):
